@@ -91,12 +91,12 @@ Definition step (s : st) (t : nat) : st * list Z :=
       end
   | PData =>
       ({| counter := counter s; np := np s; heads := heads s; tails := tails s;
-          nxt := nxt s; dat := upd (dat s) (node T) (arg T);  freed := freed s;
+          nxt := nxt s; dat := upd (dat s) (node T) (arg T); freed := freed s;
           thr := upd (thr s) t (with_pc T PNull); nthr := nthr s |},
        ev t (dloc (node T)) 19 (arg T))
   | PNull =>
       ({| counter := counter s; np := np s; heads := heads s; tails := tails s;
-          nxt := upd (nxt s) (node T) 0; dat := dat s;  freed := freed s;
+          nxt := upd (nxt s) (node T) 0; dat := dat s; freed := freed s;
           thr := upd (thr s) t (with_pc T PLoadTail); nthr := nthr s |},
        ev t (nloc (node T)) 33 0)
   | PLoadTail =>
@@ -106,12 +106,12 @@ Definition step (s : st) (t : nat) : st * list Z :=
        ev t (tloc (qi T)) 22 (tails s (qi T)))
   | PStoreTail =>
       ({| counter := counter s; np := np s; heads := heads s; tails := upd (tails s) (qi T) (node T);
-          nxt := nxt s; dat := dat s;  freed := freed s;
+          nxt := nxt s; dat := dat s; freed := freed s;
           thr := upd (thr s) t (with_pc T PLink); nthr := nthr s |},
        ev t (tloc (qi T)) 33 (node T))
   | PLink =>
       ({| counter := counter s; np := np s; heads := heads s; tails := tails s;
-          nxt := upd (nxt s) (prev T) (node T); dat := dat s;  freed := freed s;
+          nxt := upd (nxt s) (prev T) (node T); dat := dat s; freed := freed s;
           thr := upd (thr s) t (next_op (np s) T); nthr := nthr s |},
        ev t (nloc (prev T)) 33 (node T) ++ ret t T (node T))
   | CRead1 =>
@@ -125,7 +125,7 @@ Definition step (s : st) (t : nat) : st * list Z :=
                       prog := prog T; opi := opi T |},
        ev t 0 9 (counter s))
   | CWrite =>
-      ({| counter := S (cv T); np := np s; heads := heads s; tails := tails s; nxt := nxt s; dat := dat s;  freed := freed s;
+      ({| counter := S (cv T); np := np s; heads := heads s; tails := tails s; nxt := nxt s; dat := dat s; freed := freed s;
           thr := upd (thr s) t (with_pc T QHead); nthr := nthr s |},
        ev t 0 19 (S (cv T)))
   | QHead =>
@@ -149,7 +149,7 @@ Definition step (s : st) (t : nat) : st * list Z :=
       end
   | QSetHead =>
       ({| counter := counter s; np := np s; heads := upd (heads s) (qi T) (hn T); tails := tails s;
-          nxt := nxt s; dat := dat s;  freed := freed s;
+          nxt := nxt s; dat := dat s; freed := freed s;
           thr := upd (thr s) t (with_pc T QRead); nthr := nthr s |},
        ev t (hloc (qi T)) 33 (hn T))
   | QRead =>
@@ -159,7 +159,7 @@ Definition step (s : st) (t : nat) : st * list Z :=
        ev t (dloc (hn T)) 9 (dat s (hn T)))
   | QWrite =>
       ({| counter := counter s; np := np s; heads := heads s; tails := tails s;
-          nxt := nxt s; dat := upd (dat s) (hd T) (rdv T);  freed := freed s;
+          nxt := nxt s; dat := upd (dat s) (hd T) (rdv T); freed := freed s;
           thr := upd (thr s) t (with_pc T QUse); nthr := nthr s |},
        ev t (dloc (hd T)) 19 (rdv T))
   | QUse =>
